@@ -392,6 +392,8 @@ func checkPool(c *vsched.RunCtx, prop string) {
 	if c.Replay != nil {
 		if strings.HasPrefix(c.Replay.Harness, "sched:") {
 			runPoolDrivers(c, drivers, false)
+		} else if c.Replay.Harness == "pairs" {
+			runPairs(c, false)
 		} else {
 			replayPool(c, prop, cfgs)
 		}
@@ -399,6 +401,11 @@ func checkPool(c *vsched.RunCtx, prop string) {
 	}
 	if drivers != "" {
 		runPoolDrivers(c, drivers, false)
+	}
+	// pairwise atomicity: every pair of operations overlapped in every schedule within the bound,
+	// judged by the invariants of this property on the real end state (pairs.go)
+	if pairProps[prop] {
+		runPairs(c, false)
 	}
 	idx, sub, nsub := c.Split(len(cfgs))
 	for _, i := range idx {
